@@ -59,6 +59,7 @@ fn common_labels(ci: &mut CaseInfo, m: &RefDb, info: &HistInfo) {
 pub fn c08(ctx: &mut Ctx) {
     ctx.rule = "histories of node/edge inserts (count, aliases, values, pairwise/each/asymmetric, by id, alias and search) and removals by id/alias/search with 15% invalid references, executed on DbMemory in lock-step with the reference multigraph; after every step the query result and the full canonical dump (node count, element set, endpoints, per-node edge lists and counts) are compared. Non-trivial: >=1 id reused after removal AND >=1 node with >=2 edges removed. Distinct = hash of the generated history.".into();
     let mut p = Profile::general();
+    p.grow_shrink_pct = 5;
     p.w_insert_values = 1;
     p.w_insert_index = 0;
     p.w_remove_index = 0;
@@ -98,6 +99,7 @@ pub fn c08(ctx: &mut Ctx) {
 pub fn c09(ctx: &mut Ctx) {
     ctx.rule = "histories focused on properties: insert values single/multi/uniform by id, alias and search, insert-or-update of nodes and edges through ids, remove values, element removal and id reuse, and reads (all values, by distinct keys in arbitrary order incl. missing keys, keys, key_count) by ids and by search; keys within one insert list are distinct. Every result and the full dump are compared with the reference ordered key-value map after every step. Non-trivial: >=1 in-place replacement of a non-last key AND >=1 id reuse of an element that had values.".into();
     let mut p = Profile::general();
+    p.grow_shrink_pct = 5;
     p.w_insert_values = 25;
     p.w_insert_nodes_ids = 6;
     p.w_insert_edges_ids = 6;
@@ -139,6 +141,7 @@ pub fn c09(ctx: &mut Ctx) {
 pub fn c10(ctx: &mut Ctx) {
     ctx.rule = "histories focused on aliases: insert nodes with new/existing aliases, insert aliases on existing nodes (fresh, re-alias, steal, same again), on edge ids and on missing ids, empty alias through every entry point (insert aliases, insert nodes with aliases, insert nodes by ids with aliases, insert values with new alias), remove aliases, node/edge removal and id reuse; the alias<->node bijection is read back after every step via select all aliases, per-node select aliases (Err iff none) and alias resolution; rejected operations must leave the dump unchanged. Non-trivial: >=1 steal or re-alias AND >=1 removal of an aliased node.".into();
     let mut p = Profile::general();
+    p.grow_shrink_pct = 5;
     p.w_insert_nodes = 12;
     p.w_insert_nodes_ids = 6;
     p.w_insert_aliases = 25;
@@ -181,6 +184,7 @@ pub fn c10(ctx: &mut Ctx) {
 pub fn c11(ctx: &mut Ctx) {
     ctx.rule = "histories mixing value inserts/replacements/removals on indexed and non-indexed keys (pool of 8 keys), element removal incl. cascaded edges, index create (also when it exists) / remove (also absent), failing queries and rolled-back transactions; after every step, for every indexed key K and every value V in pool U present values, search().index(K).value(V) is compared as a multiset with the model, and select().indexes() with the per-key element counts. Non-trivial: >=1 replacement on an indexed key AND >=1 cascade removal touching an indexed edge AND >=1 rollback.".into();
     let mut p = Profile::general();
+    p.grow_shrink_pct = 5;
     p.w_insert_index = 8;
     p.w_remove_index = 3;
     p.w_insert_values = 25;
